@@ -9,8 +9,8 @@ PROPERTY = "C14"
 LEVEL = "exploration"
 RULE = (
     "HyperbandScheduler (type stopping / promotion) with GP multi-fidelity ('bayesopt') and HyperTune searchers, searcher_data in "
-    "{rungs, all, rungs_and_last}, register_pending_myopic on/off, 1-3 brackets, mode min/max with both reward maps, scripts with and "
-    "without checkpointing (resumed trials re-report old levels), failures, driven by the protocol driver through tape-chosen "
+    "{rungs, all, rungs_and_last}, register_pending_myopic on/off, grace period 1-3, 1-3 brackets, mode min/max with both reward maps, scripts with and "
+    "without checkpointing (resumed trials re-report old levels), scripts that end on their own below the maximum resource, failures, driven by the protocol driver through tape-chosen "
     "interleavings of up to 3 concurrent trials; GP made cheap (1 restart, 3 L-BFGS iterations, 6 candidates, model used after 2 random "
     "picks). Oracle, evaluated on searcher.state_transformer.state after every event: the observed set equals exactly the (trial, level) "
     "pairs the data policy selects from what was delivered (no pair twice), each value equals the reported metric mapped to the "
@@ -82,7 +82,6 @@ def case(t):
     )
     labels = {typ, searcher, policy, "myopic" if myopic else "non-myopic", mode, "checkpointing" if checkpointing else "restart"}
     delivered = {}  # trial -> {level: metric}
-    optional_final = set()
     last_level = {}
     ctx0 = f"grace_period={gp} early_complete={early} type={typ} searcher={searcher} searcher_data={policy} myopic={myopic} mode={mode} minus_x={minus_x} max_t={max_t} rf={rf} brackets={brackets} mra={use_mra} ckpt={checkpointing}"
 
@@ -105,8 +104,6 @@ def case(t):
             last_level[ev.trial_id] = ev.level
             if ev.get("completed") and ev.level < min(levels + [max_t]):
                 labels.add("completed-before-first-rung")
-            if ev.get("completed") and ev.level < cap(d.trials[ev.trial_id].config):
-                optional_final.add((ev.trial_id, ev.level))
         st = sched.searcher.state_transformer.state
         tail = [(x.op, x.get("kind"), x.get("trial_id"), x.get("level"), x.get("decision")) for x in d.trace[-8:]]
         # ---- observations
@@ -137,9 +134,7 @@ def case(t):
                     want.add((tid, r))
                 elif policy == "rungs_and_last" and r == last_level.get(tid) and r == max(lv):
                     want.add((tid, r))
-        # the final result of a script that ended on its own below the maximum resource is handed to the searcher by
-        # on_trial_complete whatever the policy; the property does not speak about such runs: either way is accepted
-        if (seen_pairs - optional_final) != (want - optional_final):
+        if seen_pairs != want:
             extra = sorted(seen_pairs - want)
             missing = sorted(want - seen_pairs)
             kind = "observations-missing" if missing and not extra else "observations-extra" if extra and not missing else "observations-differ"
